@@ -2,7 +2,7 @@
    The receiver (model of MessageReceiver.receive) refines the grammar of the whole stream for EVERY way of cutting
    the stream into reads; unbounded in stream length and number/position of cuts. *)
 From Coq Require Import NArith List.
-From SkV Require Import Bytes Framing FramingProofs.
+From SkV Require Import Bytes Framing FramingProofs SenderProofs.
 Import ListNotations.
 Open Scope N_scope.
 
@@ -17,6 +17,26 @@ Theorem C11_chunking : forall max c1 c2, Forall bytes_wf c1 -> Forall bytes_wf c
   snd (fst (feed max r_init c1)) = snd (fst (feed max r_init c2)).
 Proof. exact chunking_independent. Qed.
 
+(* sender and receiver composed: the payloads handed to send_message on one side are exactly the frames delivered to
+   handle_message_data on the other, in order, for EVERY fragmentation of the stream; a connection observed part-way
+   has delivered a prefix of them and refused nothing.  The size premise is necessary ([C11_oversize_refused]). *)
+Theorem C11_send_receive : forall max ps chunks, Forall (sendable max) ps -> Forall bytes_wf chunks ->
+  concat chunks = send_stream ps ->
+  fst (fst (feed max r_init chunks)) = ps /\
+  snd (fst (feed max r_init chunks)) = None /\
+  pending (snd (feed max r_init chunks)) = [].
+Proof. exact send_receive. Qed.
+
+Theorem C11_send_receive_prefix : forall max ps chunks later, Forall (sendable max) ps -> Forall bytes_wf chunks ->
+  concat chunks ++ later = send_stream ps ->
+  snd (fst (feed max r_init chunks)) = None /\
+  exists more, fst (fst (feed max r_init chunks)) ++ more = ps.
+Proof. exact send_receive_prefix. Qed.
+
+Theorem C11_oversize_refused : forall max p b, max < N.of_nat (length p) -> N.of_nat (length p) < 2 ^ 32 ->
+  parse_stream max (send_frame p ++ b) = ([], Some TooLong, send_frame p ++ b).
+Proof. exact send_oversize_refused. Qed.
+
 Example C11_example :
   feed 100 r_init [[77;65]; [74;73;0;0;0;3;1;2]; [3;77;65;74;73;0;0;0;2;9;8]] = ([[1;2;3];[9;8]], None, r_init).
 Proof. vm_compute. reflexivity. Qed.
@@ -26,3 +46,6 @@ Proof. vm_compute. reflexivity. Qed.
 
 Print Assumptions C11_spec.
 Print Assumptions C11_chunking.
+Print Assumptions C11_send_receive.
+Print Assumptions C11_send_receive_prefix.
+Print Assumptions C11_oversize_refused.
